@@ -99,7 +99,7 @@ def run_check(prop: str, tier: str) -> int:
         # a proof obligation or a correspondence no longer checks: widen the search for a failing input
         rep.log("obligation/correspondence broken — searching with the thorough budget")
         c2 = Ctx(rep, prop, "thorough", driver_ok)
-        c2.deadline = time.time() + 900
+        c2.deadline = time.time() + 240
         run_stages(c2)
         ctx.disagreements += c2.disagreements
     if not rep.violations:
